@@ -128,6 +128,22 @@ class SymbolNode(NodeProtocol):
         return f"SymbolNode({self.symbol_name}, {self.expression})"
 
 
+class CallSiteSymbolNode(SymbolNode):
+    """Macro parameter whose argument is resolved late (forward label): the argument is evaluated
+    in the scope of the call site, the parameter is bound in the macro scope."""
+
+    def pc_after(self, current_pc: Address) -> Address:
+        assert isinstance(self.expression, ExpressionAstNode)
+        macro_scope = self.resolver.current_scope
+        self.resolver.current_scope = macro_scope.parent or macro_scope
+        try:
+            value = eval_expression(self.expression, self.resolver)
+        finally:
+            self.resolver.current_scope = macro_scope
+        macro_scope.add_symbol(self.symbol_name, value)
+        return current_pc
+
+
 class BinaryNode(NodeProtocol):
     def __init__(self, path: str, resolver: Resolver) -> None:
         with open(path, "rb") as binary_file:
